@@ -22,6 +22,7 @@ from ..core import cfg as cfgmod
 from ..core.astutil import u, walk_local, call_name, arg_or_kw, kwarg, single_assign_value, assigned_targets, methods
 from ..core.loader import AnchorError, Undecided
 from ..core.report import Ctx
+from .c08 import _indices_kind, KIND_INDICES_ATTR  # depth-expression classifier shared with C08-R4
 
 NEWTON = "src/porepy/numerics/nonlinear/nonlinear_solvers.py"
 LINEAR = "src/porepy/numerics/linear_solvers.py"
@@ -47,7 +48,8 @@ META = {
         "obligation. The verdict (True, True) of NewtonSolver.solve reaches `return True` with no hook (D11, known "
         "finding); every other offending abstract path is a violation. R2 checks, on the statement CFG of the four "
         "SolutionStrategy hooks with arguments resolved against the real signatures of EquationSystem.set/get_variable_"
-        "values: shift dominates the write to index 0 and is never reachable after it, the written value is the hook's "
+        "values: shift dominates the write to index 0 and is never reachable after it, the shift is capped by exactly "
+        "len(self.<same-kind>_indices) (classifier shared with C08-R4), the written value is the hook's "
         "own parameter, additive only for the iterate update, the converged solution is read at iterate_index=0 with no "
         "intervening iterate write, the failure hook overwrites iterate 0 (non-additively) with the value read at "
         "time_step_index=0, reaches compute_time_step(recompute_solution=True) on every normal path and never touches "
@@ -65,7 +67,7 @@ META = {
     "technique": "abstract-state path exploration (model checking of the CFG over a finite domain) + CFG dominance + "
                  "class-table sweep",
 }
-MIN_INSTANCES = {"R1": 8, "R2": 14, "R3": 3}
+MIN_INSTANCES = {"R1": 8, "R2": 16, "R3": 3}
 
 
 # ------------------------------------------------------------------ generic helpers
@@ -332,6 +334,9 @@ class _Sig:
         for p in ("time_step_index", "iterate_index"):
             if p not in self.get:
                 raise AnchorError(f"{EQSYS}: get_variable_values has no parameter `{p}`")
+        self.shift = _params(eqs.func("EquationSystem.shift_time_step_values"))
+        if self.shift != _params(eqs.func("EquationSystem.shift_iterate_values")) or "max_index" not in self.shift:
+            raise AnchorError(f"{EQSYS}: shift_time_step_values / shift_iterate_values signatures differ or lack max_index")
 
     def sarg(self, c: ast.Call, name: str) -> Optional[ast.expr]:
         return arg_or_kw(c, self.set.index(name), name)
@@ -372,7 +377,23 @@ def _shift_then_write(g, sig, fn, kind: str, additive_required: bool):
     reassigned = any(isinstance(t, ast.Name) and t.id == param for s in walk_local(fn) if isinstance(s, ast.stmt) and s is not fn
                      for t in assigned_targets(s))
     W = _call_nodes(g, lambda c: call_name(c) == "set_variable_values" and _is_zero(sig.sarg(c, idx_p)))
-    S = [n for n, _ in _call_nodes(g, lambda c: call_name(c) == shift_name)]
+    S_calls = _call_nodes(g, lambda c: call_name(c) == shift_name)
+    S = [n for n, _ in S_calls]
+    # the shift is capped by exactly the number of stored indices of the same kind (or is unbounded)
+    for sn, sc in S_calls:
+        depth = arg_or_kw(sc, sig.shift.index("max_index"), "max_index")
+        if _is_none(depth):
+            out.append((True, sc, f"{shift_name} without a cap keeps every stored value", f"{shift_name}(max_index=None)", {}))
+            continue
+        k, exact, offset = _indices_kind(fn, depth)
+        if k is None or (k == kind and not exact):
+            raise Undecided(f"{fn.name}: depth expression `{u(depth)}` of {shift_name} is not of a recognised form")
+        out.append((k == kind and offset == 0, sc,
+                    f"{shift_name} must be capped by exactly len(self.{KIND_INDICES_ATTR[kind]}) (every stored index is part of "
+                    f"the window: with a smaller cap the oldest slot keeps a stale value, so the {kind} history is no longer the "
+                    f"sequence of accepted values); found `{u(depth)}` (kind {k}, offset {offset})",
+                    f"{shift_name} capped by exactly the number of stored {kind} indices",
+                    {"depth": u(depth), "kind": k, "offset": offset}))
     out.append((_all_paths(g, [n for n, _ in W]), fn, f"a write set_variable_values(..., {idx_p}=0) must be reached on every "
                 "normally returning path", f"write to {idx_p}=0 on all normal paths", {}))
     for wn, wc in W:
@@ -615,6 +636,17 @@ MUTANTS = [
        "        self.equation_system.set_variable_values(\n            values=solution, time_step_index=0, additive=False\n        )\n",
        "        self.equation_system.set_variable_values(\n            values=solution, time_step_index=0, additive=False\n        )\n"
        "        self.equation_system.shift_time_step_values(\n            max_index=len(self.time_step_indices)\n        )\n", "R2", control=True),
+    _m("seed-update-solution-shift-depth-minus-one", SOLSTRAT,
+       "        self.equation_system.shift_time_step_values(\n            max_index=len(self.time_step_indices)\n        )",
+       "        self.equation_system.shift_time_step_values(\n            max_index=len(self.time_step_indices) - 1\n        )", "R2"),
+    _m("iterate-shift-capped-by-time-depth", SOLSTRAT,
+       "self.equation_system.shift_iterate_values(max_index=len(self.iterate_indices))",
+       "self.equation_system.shift_iterate_values(max_index=len(self.time_step_indices))", "R2"),
+    _m("seed-failure-resets-from-oldest-time-step", SOLSTRAT,
+       "            prev_solution = self.equation_system.get_variable_values(time_step_index=0)\n",
+       "            prev_solution = self.equation_system.get_variable_values(\n                time_step_index=self.time_step_indices[-1]\n            )\n", "R2"),
+    _m("seed-failure-hook-only-on-divergence-or-exhaustion", NEWTON, "        if not is_converged:\n            # If Newton fails",
+       "        if is_diverged or (\n            model.nonlinear_solver_statistics.num_iteration\n            > self.params[\"max_iterations\"]\n        ):\n            # If Newton fails", "R1"),
     _m("failure-resets-from-iterate", SOLSTRAT, "            prev_solution = self.equation_system.get_variable_values(time_step_index=0)\n",
        "            prev_solution = self.equation_system.get_variable_values(iterate_index=0)\n", "R2"),
     _m("failure-reset-writes-time-step", SOLSTRAT, "            self.equation_system.set_variable_values(prev_solution, iterate_index=0)\n",
